@@ -582,7 +582,8 @@ def load_varint(stream: "SupportsRead[bytes]") -> Tuple[int, bytes]:
         b_int = int.from_bytes(b, byteorder="little")
         result |= (b_int & 0x7F) << shift
         if not (b_int & 0x80):
-            return result, raw
+            # A 10-byte varint can carry up to 70 bits; only 64 are meaningful.
+            return result & 0xFFFFFFFFFFFFFFFF, raw
 
 
 def decode_varint(buffer: bytes, pos: int) -> Tuple[int, int]:
